@@ -24,26 +24,13 @@ def sh(cmd, **kw):
     return subprocess.run(cmd, capture_output=True, text=True, **kw)
 
 
-def main():
-    ap = argparse.ArgumentParser()
-    ap.add_argument('dir')
-    ap.add_argument('--tier', default='quick')
-    ap.add_argument('--also', default='')
-    ap.add_argument('--nofile', action='store_true')
-    a = ap.parse_args()
-    src = a.dir.rstrip('/')
-    meta = json.load(open(os.path.join(src, 'meta.json')))
-    sid = meta.get('id') or os.path.basename(src)
-    prop = meta.get('property') or sid.split('_')[0]
-    scratch = '/tmp/seedchk_%s' % sid
+def apply_change(src, scratch, meta, out):
+    """copy /repo to scratch and apply <src>/patch.diff (plain patch; if that fails and meta has base_commit: three-way merge per file)"""
     shutil.rmtree(scratch, ignore_errors=True)
     shutil.copytree('/repo', scratch, ignore=shutil.ignore_patterns('.git', '__pycache__', '*.egg-info', 'docs', 'examples'))
-    out = {'id': sid, 'property': prop}
     r = sh(['patch', '-p1', '--no-backup-if-mismatch', '-i', os.path.join(os.path.abspath(src), 'patch.diff')], cwd=scratch)
     out['applies'] = r.returncode == 0
     if not out['applies'] and meta.get('base_commit'):
-        # the change was written against an earlier /repo commit and later `fix:` commits touch the same lines:
-        # three-way merge per file (current /repo file <- base file -> base file + change)
         shutil.rmtree(scratch, ignore_errors=True)
         shutil.copytree('/repo', scratch, ignore=shutil.ignore_patterns('.git', '__pycache__', '*.egg-info', 'docs', 'examples'))
         tmpb = scratch + '_base'
@@ -76,6 +63,23 @@ def main():
         out['rebased_onto_head'] = ok
     if not out['applies']:
         out['apply_output'] = (r.stdout + r.stderr)[-400:]
+    return out['applies']
+
+
+def main():
+    ap = argparse.ArgumentParser()
+    ap.add_argument('dir')
+    ap.add_argument('--tier', default='quick')
+    ap.add_argument('--also', default='')
+    ap.add_argument('--nofile', action='store_true')
+    a = ap.parse_args()
+    src = a.dir.rstrip('/')
+    meta = json.load(open(os.path.join(src, 'meta.json')))
+    sid = meta.get('id') or os.path.basename(src)
+    prop = meta.get('property') or sid.split('_')[0]
+    scratch = '/tmp/seedchk_%s' % sid
+    out = {'id': sid, 'property': prop}
+    if not apply_change(src, scratch, meta, out):
         print(json.dumps(out, indent=1))
         shutil.rmtree(scratch, ignore_errors=True)
         return 2
